@@ -281,7 +281,7 @@ def _seen_atom(facts, found):
     """atom: `every child hash of the node is in self.<F>` (through a helper or inline; as forall-present or as
     not-exists-missing)."""
     def atom(t):
-        if t[0] not in ('call', 'unop', 'binop'):
+        if t[0] not in ('call', 'unop', 'binop', 'loopq'):
             return None
         q = quant(facts, t)
         if q is None:
@@ -299,11 +299,11 @@ def _seen_atom(facts, found):
                 return None
             cont, key, pos = pr
             pc = param_path(cont)
-            if pc and pc[0] == 1 and versionless(key)[0] == 'item':
+            if pc and pc[0] == 1 and (versionless(key)[0] == 'item' or quant_item(q, key)):
                 hit.append(pc[1])
                 return 'c' if pos else ('not', 'c')
             return None
-        tv = {v: closure_value(facts, q['cb'], bool_atom=ba, assumption={'c': v}, acc=q.get('acc')) for v in (True, False)}
+        tv = {v: quant_value(facts, q, bool_atom=ba, assumption={'c': v}) for v in (True, False)}
         if not hit or len(set(hit)) != 1:
             return None     # presence in one container only: `in dag || in orphans` is a different notion of "seen"
         if q['kind'] == 'forall' and tv == {True: True, False: False}:
@@ -1145,6 +1145,35 @@ def mk_access(ctx):
         def look(t, fld):
             return is_call(t, 'get') and len(t[2]) == 2 and param_path(t[2][0]) == (1, (fld,)) and value_path(drop_lv(t[2][1])) == (2, ())
         ok = look(first, 'dag') and look(second, 'orphans')
+    if not ok:
+        # the same written as a `match` / early return: decided per outcome of the dag lookup
+        def look2(t, fld):
+            t = drop_lv(t)
+            if is_variant(t, 'option::Option', 'Some'):
+                p_ = drop_lv(t[3][0][1])
+                t = drop_lv(p_[1]) if p_[0] == 'field' and p_[2] == 'Some.0' else p_
+            return is_call(t, 'get') and len(t[2]) == 2 and param_path(t[2][0]) == (1, (fld,)) and value_path(drop_lv(t[2][1])) == (2, ())
+
+        def atom_n(t):
+            if t[0] == 'discr' and look2(t[1], 'dag'):
+                return ('map', 'has', {True: 1, False: 0})
+            if is_call(t, ('is_some', 'is_none')) and t[2] and look2(t[2][0], 'dag'):
+                return 'has' if call_name(t) == 'is_some' else ('not', 'has')
+            if is_call(t, 'contains_key') and len(t[2]) == 2 and param_path(t[2][0]) == (1, ('dag',)) and value_path(drop_lv(t[2][1])) == (2, ()):
+                return 'has'
+            return None
+        from ..ordset import Reach, Evaluator
+        res_ = {}
+        for has in (True, False):
+            evr_ = Evaluator(facts, bool_atom=atom_n, assumption={'has': has})
+            rc_ = Reach(facts, body, evr_)
+            rets_ = [b for b in rc_.return_blocks() if b in rc_.reachable]
+            ts_ = set()
+            for b in rets_:
+                for t_ in rc_.reaching_terms(0, b):
+                    ts_ |= set(phi_alts(drop_lv(t_)))
+            res_[has] = bool(ts_) and all(look2(t_, 'dag' if has else 'orphans') for t_ in ts_) and 'has' in evr_.hits
+        ok = res_[True] and res_[False]
     ctx.check(ok, 'node', body, 'dag.get(hash) or else orphans.get(hash)', 'MerkleReg::node is %s, expected dag.get(hash).or_else(|| orphans.get(hash))' % fmt(r, 6))
     # parents: filter over all of dag keeping exactly the nodes whose children contain the asked hash
     body = ctx.inherent(MERKLE, 'parents')
@@ -1173,6 +1202,34 @@ def mk_access(ctx):
             drop_f = (vf_ is False) or vf_ == ('optnone',)
             ok = keep_t and drop_f and not keep_f
             why = 'a dag node is kept under children.contains(hash)=%s -> %s / %s' % (True, vt, vf_)
+    if not ok:
+        # loop form: a complete loop over self.dag that puts (hash, node) of the item into the Content's map exactly when
+        # the item's children contain the asked hash
+        from .loops import loop_collected, item_derived
+        from ..ordset import Reach, Evaluator
+        it_ = interp(facts, body)
+        raw_ = it_.ret
+        while raw_[0] in ('lv', 'at'):
+            raw_ = raw_[3] if raw_[0] == 'lv' else raw_[2]
+        nodes_ = dict(raw_[3]).get('nodes') if raw_[0] == 'agg' and raw_[1].endswith('Content') else None
+        lc = loop_collected(facts, body, it_, nodes_, conditional=True) if nodes_ is not None else None
+        if lc is not None:
+            lp_, vals_, fb_ = lc
+            if not lp_.whole_over(1, ('dag',)) or lp_.source()[2]:
+                why = 'the scan does not range over all of self.dag'
+            else:
+                def atom_p(t):
+                    if is_call(t, 'contains') and len(t[2]) == 2:
+                        c0 = versionless(t[2][0])
+                        if c0[0] == 'field' and c0[2] == 'children' and item_derived(c0[1], lp_) and value_path(drop_lv(t[2][1])) == (2, ()):
+                            return 'has'
+                    return None
+                tab_ = {}
+                for has in (True, False):
+                    rc_ = Reach(facts, body, Evaluator(facts, bool_atom=atom_p, assumption={'has': has}))
+                    tab_[has] = (lp_.may(rc_, [fb_]), lp_.must(rc_, [fb_]))
+                ok = tab_[True][1] and not tab_[False][0] and all(item_derived(v_, lp_) for v_ in vals_)
+                why = 'a dag node is kept under children.contains(hash) -> (may, must) %s' % tab_
     ctx.check(ok, 'parents', body, 'every dag node whose children contain the hash, and no other', 'MerkleReg::parents: ' + why)
     # children: the node under the asked hash, its children looked up in dag
     body = ctx.inherent(MERKLE, 'children')
